@@ -9,7 +9,11 @@ Section Pieces.
   Definition x_n := length x_is.
   Definition x_spawned := Nat.ltb (m_ninst m) x_n.
   Definition x_newest := (x_n - 1)%nat.
-  Definition x_ctx := match e with [1; c; _] => c | _ => m_ctx m end.
+  Definition x_epoch := epoch_event e p.
+  Definition x_is_dead := existsb (N.eqb (m_ctx m)) (m_dead m).
+  Definition x_forgets := (x_epoch || match e with [3] => true | [14; _] => true | _ => false end) && x_is_dead.
+  Definition x_ctx0 := if x_forgets then 0 else m_ctx m.
+  Definition x_ctx := match e with [1; c; _] => c | _ => x_ctx0 end.
   Definition x_st := match e with
              | [4; v] => match po_rets p with [_; ch; _; _] => if nz ch then v else m_st m | _ => m_st m end
              | [5; _] => match po_rets p with [nx; _; ch; _; _] => if nz ch then nx else m_st m | _ => m_st m end
@@ -18,7 +22,6 @@ Section Pieces.
   Definition x_sfn := match e with [6; f] => f | _ => m_sfn m end.
   Definition x_hasr := if m_sv m then nz x_sfn && nz x_st
                else match e with [2; f] => nz f | _ => m_hasr m end.
-  Definition x_epoch := epoch_event e p.
   Definition x_clock := match e with [11; d] => m_clock m + d | _ => m_clock m end.
   Definition x_out' := (m_out m ++ repeat 1 (x_n - length (m_out m)))%list.
   Definition x_out := match e with [9; i; o] => set_nth x_out' (n2n i) o | _ => x_out' end.
@@ -68,7 +71,7 @@ Section Pieces.
                | [17; _] => filter (fun t => negb (Nat.eqb (fst (fst t)) x_book_i)) (m_pend m)
                | _ => m_pend m
                end.
-  Definition x_clear_ctx := match e with [1; c; _] => N.eqb c 0 | _ => false end.
+  Definition x_clear_ctx := match e with [1; c; _] => N.eqb c 0 && nz (m_ctx m) | _ => false end.
   Definition x_cur := if x_spawned then Some x_newest else if x_epoch || x_clear_ctx then None else m_cur m.
   Definition x_recorded := x_is_book && negb x_nodelta
                   && match m_cur m with Some c => Nat.eqb c x_book_i | None => false end.
@@ -78,11 +81,14 @@ Section Pieces.
   Definition x_bo : nat * option N :=
     match m_script m with
     | Some l => if x_rec_ok then (0%nat, None)
-                else if x_rec_err then (S (m_idx m), match nth_error l (m_idx m) with Some d => Some (x_clock + d) | None => None end)
+                else if x_rec_err then (S (m_idx m), match nth_error l (m_idx m) with
+                                                     | Some d => if nz x_ctx then Some (x_clock + d) else None
+                                                     | None => None
+                                                     end)
                 else ((if x_rep_ok then 0%nat else m_idx m), m_pending m)
     | None => (m_idx m, None)
     end.
-  Definition x_clears := x_spawned || x_epoch || x_is_restart || x_is_ctx_restart || (match e with [1; c; _] => N.eqb c 0 | _ => false end).
+  Definition x_clears := x_spawned || x_epoch || x_is_restart || x_is_ctx_restart || (match e with [1; c; _] => N.eqb c 0 | _ => false end) || x_forgets.
   Definition x_pending := if x_rec_err then snd x_bo else if x_clears then None else snd x_bo.
   Definition x_f14c := fails 14 3 (match x_pending with
                           | Some d => negb (N.leb d x_clock) || negb (N.eqb (po_parked p) 0)
@@ -96,10 +102,10 @@ Section Pieces.
       | Some wc =>
         if N.leb 3 wc then
           let o := wc - 3 in
-          let expect := if nz (m_ctx m) && m_hasr m then m_curexit m else None in
+          let expect := if nz x_ctx0 && m_hasr m then m_curexit m else None in
           fails 14 4 (match expect with
                       | Some x => N.eqb o x
-                      | None => (N.eqb o 1 && nth (n2n a) (m_wcanc m) false) || (N.eqb o 0 && negb (nz (m_ctx m) && m_hasr m))
+                      | None => (N.eqb o 1 && nth (n2n a) (m_wcanc m) false) || (N.eqb o 0 && negb (nz x_ctx0 && m_hasr m))
                       end)
         else []
       | None => [(14, 4)]%nat
@@ -116,7 +122,8 @@ Section Pieces.
        m_ctx := x_ctx; m_hasr := x_hasr; m_sfn := x_sfn; m_st := x_st; m_clock := x_clock;
        m_ninst := x_n; m_out := x_out; m_chans := x_chans;
        m_succ := if x_recorded then x_rec_ok else x_succ; m_err := if x_recorded then x_rec_err else x_err;
-       m_curexit := x_curexit; m_pending := x_pending; m_quiet := x_quiet; m_cur := x_cur; m_exitg := m_exitg m; m_pend := x_pend; m_wcanc := x_wcanc |}.
+       m_curexit := x_curexit; m_pending := x_pending; m_quiet := x_quiet; m_cur := x_cur; m_exitg := m_exitg m; m_pend := x_pend; m_wcanc := x_wcanc;
+       m_dead := match e with [18; c] => c :: m_dead m | _ => m_dead m end |}.
   Definition x_fails : list (nat * nat) :=
     x_f4 ++ x_f5 ++ (if m_exitg m then [] else x_f14a) ++ x_f14e ++ (if m_exitg m then [] else x_f14c ++ x_f14w).
 End Pieces.
